@@ -23,10 +23,10 @@
 #include <unordered_map>
 using namespace tbox::event;
 
-enum K { ENABLE, DISABLE, FEED, DRAIN, PASS, REINIT_FD, REINIT_MASK, RECREATE, CLOSE_PEER };
+enum K { ENABLE, DISABLE, FEED, DRAIN, PASS, REINIT_FD, REINIT_MASK, RECREATE, CLOSE_PEER, REUSE, CLOSE_EN, REOPEN };
 enum A { NONE, DIS_SELF, DIS_TGT, DESTROY_TGT, ENABLE_TGT, DESTROY_TGT_NEW, DESTROY_TGT_CLOSE, DIS_TGT_EN_THIRD, DESTROY_TGT_EN_THIRD,
          ENABLE_SELF, DIS_EN_TGT, REINIT_TGT_EN, DESTROY_TGT_NEW_SAME };
-static const char *kN[] = {"enable", "disable", "feed", "drain", "pass", "reinit-next-fd", "reinit-next-mask", "recreate", "close-peer"};
+static const char *kN[] = {"enable", "disable", "feed", "drain", "pass", "reinit-next-fd", "reinit-next-mask", "recreate", "close-peer", "close-fd+enable+reopen-same-number", "close-fd+enable", "reopen-same-number"};
 static const char *aN[] = {"none", "disable-self", "disable", "destroy", "enable", "destroy+new-event-on-3rd-fd", "destroy+close-fd", "disable+enable-the-third-event", "destroy+enable-the-third-event",
                            "rearm-self", "disable+enable", "move-to-3rd-fd+enable", "destroy+new-event-on-same-fd"};
 struct Op { int k, a; };
@@ -55,6 +55,8 @@ struct World {
   Loop *loop = nullptr; bool is_epoll = false; int cfg = 0;
   int rd[ND], wr[ND]; bool closed[ND] = {false, false, false}, peer_closed[ND] = {false, false, false};
   FdEvent *ev[NE + 1]; bool alive[NE + 1], en[NE + 1], oneshot[NE + 1]; short mask[NE + 1]; int d[NE + 1];
+  int pending = -1;          // descriptor that was closed under a disabled event and is waiting to be re-opened with the same number
+  bool tainted = false;      // an event was enable()d on a closed descriptor: from then on only the safety clauses are judged (what such an event is due is outside the property)
   short snap[ND]; std::string viol; unsigned called = 0;     // bit e: the callback of event e was entered at least once
   std::vector<std::vector<Call>> passes;     // callbacks delivered, per pass
   std::vector<std::vector<Call>> expected;   // the model's exact callback set of the pass (valid when exact[p])
@@ -159,6 +161,17 @@ static std::string run_engine(const char *eng, int variant, int cfg, const Scrip
         case REINIT_MASK: if (w.alive[o.a] && !w.closed[w.d[o.a]]) reinit_event(w, o.a, w.d[o.a], next_mask(w.mask[o.a])); break;
         case RECREATE: if (!w.closed[CFG[cfg][o.a].d]) { if (w.alive[o.a]) destroy_event(w, o.a); make_event(w, sc, o.a, CFG[cfg][o.a].d, CFG[cfg][o.a].mask, CFG[cfg][o.a].oneshot); } break;
         case CLOSE_PEER: if (!w.peer_closed[o.a] && !is_socket(cfg, o.a)) { close(w.wr[o.a]); w.peer_closed[o.a] = true; } break;
+        case REUSE: case CLOSE_EN: {      // the kernel refuses (or not) an enable(): the descriptor of a disabled event is closed first; the model follows enable()'s RETURN VALUE
+          int e = o.a; if (!w.alive[e] || w.en[e] || w.pending >= 0 || w.closed[w.d[e]]) break;
+          bool busy = false; for (int x = 0; x <= NE; x++) if (w.alive[x] && w.en[x] && w.d[x] == w.d[e]) busy = true; if (busy) break;      // never close under an enabled event
+          int dd = w.d[e]; close(w.rd[dd]); if (!w.peer_closed[dd]) close(w.wr[dd]); w.closed[dd] = true; w.peer_closed[dd] = true; w.pending = dd; w.tainted = true;
+          bool ok = w.ev[e]->enable(); w.en[e] = ok;      // true: counts as enabled on that descriptor NUMBER; false: not enabled, must never be called
+          if (o.k == CLOSE_EN) break; }
+          // fall through: re-open at once
+        case REOPEN: if (w.pending >= 0) {      // a new pipe / socket takes the same descriptor number
+          int dd = w.pending, p[2]; if (is_socket(cfg, dd)) { if (socketpair(AF_UNIX, SOCK_STREAM | SOCK_NONBLOCK, 0, p)) abort(); } else { if (pipe2(p, O_NONBLOCK)) abort(); }
+          if (p[0] != w.rd[dd]) { if (dup3(p[0], w.rd[dd], 0) < 0) abort(); close(p[0]); }
+          w.wr[dd] = p[1]; w.closed[dd] = false; w.peer_closed[dd] = false; w.pending = -1; } break;
         case PASS: {
           for (int i = 0; i < ND; i++) { w.snap[i] = 0; if (w.closed[i]) continue; struct pollfd pf = {w.rd[i], POLLIN | POLLOUT | POLLPRI, 0}; poll(&pf, 1, 0); w.snap[i] = pf.revents; }
           // the model's view of the pass: who is enabled and ready now; nothing but the script's actor can change that during the pass
@@ -172,8 +185,8 @@ static std::string run_engine(const char *eng, int variant, int cfg, const Scrip
           w.loop->runNext([] {}); w.loop->runLoop(Loop::Mode::kOnce);
           // nothing but the script's actor changes anything during a pass: if the actor was not called (or acts only on itself) the model's set is exact
           bool actor_called = false; for (auto &c : w.passes.back()) if (c.e == sc.e) actor_called = true;
-          bool ex = self_only(sc.act) || !actor_called;
-          w.expected.push_back(exp); w.exact.push_back(ex); w.indep.push_back(ex || nd <= 1);
+          bool ex = (self_only(sc.act) || !actor_called) && !w.tainted;
+          w.expected.push_back(exp); w.exact.push_back(ex); w.indep.push_back(!w.tainted && (ex || nd <= 1));
           if (w.viol.empty() && ex) {      // callbacks never drain, so every enabled subscriber of a ready descriptor is due exactly once, with exactly its ready conditions
             auto key = [](std::vector<Call> v) { std::vector<int> k; for (auto &c : v) k.push_back(c.e * 8 + c.m); std::sort(k.begin(), k.end()); return k; };
             if (key(exp) != key(w.passes.back())) { std::string s = "callbacks-differ-from-the-enabled-and-ready-set expected="; for (auto &c : exp) s += "e" + std::to_string(c.e) + "/" + std::to_string(c.m) + ","; s += "_got="; for (auto &c : w.passes.back()) s += "e" + std::to_string(c.e) + "/" + std::to_string(c.m) + ","; w.viol = s; }
@@ -184,6 +197,7 @@ static std::string run_engine(const char *eng, int variant, int cfg, const Scrip
   } catch (const std::exception &ex) { w.viol = std::string("exception-out-of-runLoop(") + ex.what() + ")"; for (auto &c : w.viol) if (c == ' ') c = '_'; }
   // canonical state: model ...
   std::string c; for (int e = 0; e <= NE; e++) { char b[48]; snprintf(b, sizeof b, "%d%d%d.%x|", (int)w.alive[e], (int)w.en[e], w.alive[e] ? w.d[e] : 0, w.alive[e] ? (unsigned)w.mask[e] : 0u); c += b; }
+  c += w.tainted ? 'T' : 't'; c += (char)('0' + w.pending + 1);
   // ... kernel readiness ...
   for (int i = 0; i < ND; i++) { if (w.closed[i]) { c += 'X'; continue; } struct pollfd pf = {w.rd[i], POLLIN, 0}; poll(&pf, 1, 0); c += (pf.revents & POLLIN) ? 'R' : '-'; if (pf.revents & POLLHUP) c += 'H'; if (w.peer_closed[i]) c += 'c'; }
   // ... and the back-end's bookkeeping (stale records / counters / list order / kernel registration are the failure modes)
@@ -200,7 +214,7 @@ static std::string run_engine(const char *eng, int variant, int cfg, const Scrip
 // scripts that are also explored with the life-cycle menu (lane 1): the ones that keep the pass exactly predictable,
 // plus plain destroy / enable of another event (record reference counting after a re-initialisation)
 static bool ext_lane_script(const Script &sc) { return self_only(sc.act) || sc.act == DESTROY_TGT || sc.act == ENABLE_TGT; }
-static bool is_ext(int k) { return k == REINIT_FD || k == REINIT_MASK || k == RECREATE || k == CLOSE_PEER; }
+static bool is_ext(int k) { return k == REINIT_FD || k == REINIT_MASK || k == RECREATE || k == CLOSE_PEER || k == REUSE || k == CLOSE_EN || k == REOPEN; }
 
 // configuration automorphisms: a script that is the image of an earlier script under a renaming of identical events explores an isomorphic history set
 static bool is_symmetric_image(int cfg, const Script &sc, const std::vector<Script> &all, int idx) {
@@ -235,6 +249,9 @@ int main(int argc, char **argv) {
   const int nvariants = (int)hx::env_int("VERIF_C03_VARIANTS", 2);
   const int ext_max = (int)hx::env_int("VERIF_C03_EXT_MAX", 2);          // bound: life-cycle operations per history
   const size_t shared_cap = (size_t)hx::env_int("VERIF_C03_SHARED_CAP", 60000);
+  const bool split_reuse = hx::env_int("VERIF_C03_SPLIT_REUSE", 0) != 0;          // also offer close+enable and re-open as two operations (anything may happen in between)
+  // A loop pass while a subscribed descriptor is closed: DEFAULT OFF, because the unchanged select back-end then runs removeInvalidFds() (see the report / check.py)
+  const bool pass_on_closed = hx::env_int("VERIF_C03_PASS_ON_CLOSED_FD", 0) != 0;
   const bool share = hx::env_int("VERIF_C03_SHARE", 1) != 0, batch = hx::env_int("VERIF_C03_GROUP", 1) != 0;
   const pid_t parent = getpid();
   double deadline = hx::deadline_from_env(600);
@@ -253,11 +270,16 @@ int main(int argc, char **argv) {
     ex.show = [](const Op &o) { char b[40]; snprintf(b, sizeof b, "%s(%d)", kN[o.k], o.a); return std::string(b); };
     ex.menu = [&](const std::vector<Op> &h) {
       // harness-side facts that do not involve the code under test: a pipe that already holds a byte is not fed again, an empty one is not drained
-      bool fed[2] = {false, false}, pc[2] = {false, false}; int next = 0;
-      for (auto &o : h) { if (o.k == FEED && !pc[o.a]) fed[o.a] = true; if (o.k == DRAIN) fed[o.a] = false; if (o.k == CLOSE_PEER) pc[o.a] = true; if (is_ext(o.k)) next++; }
+      // (once a descriptor has been replaced the harness no longer knows which pipe holds what, and offers everything)
+      bool fed[2] = {false, false}, pc[2] = {false, false}, replaced = false, pend = false; int next = 0;
+      for (auto &o : h) { if (o.k == FEED && !pc[o.a]) fed[o.a] = true; if (o.k == DRAIN) fed[o.a] = false; if (o.k == CLOSE_PEER) pc[o.a] = true; if (is_ext(o.k) && o.k != REOPEN) next++;
+        if (o.k == REUSE || o.k == CLOSE_EN) replaced = true; if (o.k == CLOSE_EN) pend = true; if (o.k == REOPEN) pend = false; }
       std::vector<Op> m; for (int e = 0; e < NE; e++) { m.push_back({ENABLE, e}); m.push_back({DISABLE, e}); }
-      for (int p = 0; p < 2; p++) { if (!fed[p] && !pc[p]) m.push_back({FEED, p}); if (fed[p]) m.push_back({DRAIN, p}); } m.push_back({PASS, 0});
-      if (lane == 1 && next < ext_max) { for (int e = 0; e < NE; e++) { m.push_back({REINIT_FD, e}); m.push_back({REINIT_MASK, e}); m.push_back({RECREATE, e}); } for (int p = 0; p < 2; p++) if (!is_socket(cfg, p) && !pc[p]) m.push_back({CLOSE_PEER, p}); }
+      for (int p = 0; p < 2; p++) { if (replaced || (!fed[p] && !pc[p])) m.push_back({FEED, p}); if (replaced || fed[p]) m.push_back({DRAIN, p}); }
+      if (!pend || pass_on_closed) m.push_back({PASS, 0});
+      if (lane == 1 && pend) m.push_back({REOPEN, 0});      // (does not count against the life-cycle bound: a closed descriptor can always be re-opened)
+      if (lane == 1 && next < ext_max) { for (int e = 0; e < NE; e++) { m.push_back({REINIT_FD, e}); m.push_back({REINIT_MASK, e}); m.push_back({RECREATE, e}); } for (int p = 0; p < 2; p++) if (!is_socket(cfg, p) && (replaced || !pc[p])) m.push_back({CLOSE_PEER, p});
+        if (!pend) for (int e = 0; e < NE; e++) { m.push_back({REUSE, e}); if (split_reuse) m.push_back({CLOSE_EN, e}); } }
       return m; };
     ex.sig = [](const std::string &v) { std::string s = v.substr(0, v.find(' ')); return s; };
     auto evaluate = [&](const std::vector<Op> &h, std::string &viol, unsigned &called) {
